@@ -70,6 +70,9 @@ def run(ctx, canary=False):
         calls = []
         if full:
             calls += [{"k": "project", "seq": q} for q in seqs]
+            big = [q for q in seqs if len(q) >= 1]
+            rng.shuffle(big)
+            calls.append({"k": "many", "list": big[:400]})      # one bulk query asking for (nearly) every attribute sequence at once
         else:
             mid = [q for q in seqs if 1 <= len(q) < len(V)]
             pick = [q for q in seqs if len(q) in (0, len(V))][:3] + rng.sample(mid, min(5, len(mid)))
@@ -141,6 +144,7 @@ def run(ctx, canary=False):
     # ---- spec -> code replay
     paths = {}
     rng.shuffle(emits)
+    emits.sort(key=lambda e: 0 if any(h["call"]["k"] == "many" and len(h["call"]["list"]) > 8 for h in e["hist"]) else 1)   # exhaustive bulk queries first
     budget = 30000 if thorough else 2500
     for e in emits[:budget]:
         replay_history(ctx, cat[e["sid"] - 1], e, rng, paths)
